@@ -19,6 +19,12 @@ class VerifTypedError(exceptions.JsonRpcError):
     message = 'typed'
 
 
+class VerifSrvError(exceptions.JsonRpcError):
+    """a user error registered for a code inside the reserved server-error range"""
+    code = -32001
+    message = 'typedsrv'
+
+
 class VerifBase(exceptions.JsonRpcError):
     """the base class the client is configured with"""
 
@@ -65,12 +71,16 @@ def make_dispatcher(kind, execs):
             raise VerifTypedError(message='', data=None)
         if beh == 'unreg':
             raise exceptions.JsonRpcError(code=777, message='unreg')
+        if beh == 'typedsrv':
+            raise VerifSrvError(data=TYPED_DATA)
+        if beh == 'unregsrv':
+            raise exceptions.JsonRpcError(code=-32050, message='unregsrv')
         if beh == 'exc':
             raise ValueError('boom')
         return {'a': a, 'b': b}
 
     d = AsyncDispatcher() if is_async else Dispatcher()
-    for beh in ('echo', 'typed', 'typednull', 'unreg', 'exc'):
+    for beh in ('echo', 'typed', 'typednull', 'unreg', 'exc', 'typedsrv', 'unregsrv'):
         if coro:
             async def m(a=None, b=None, _beh=beh):
                 return body(_beh, a, b)
@@ -186,9 +196,10 @@ def run(scn, loop):
         cls = type(e).__name__
         if cls == 'VerifTypedError' and e.code == 2001 and e.data is None:
             cls = 'VerifTypedErrorNull'
-        kind = {('VerifTypedError', 2001): 'typed_2001', ('VerifTypedErrorNull', 2001): 'typed_2001_null', ('VerifBase', 777): 'base_777', ('ServerError', -32000): 'server_32000'}.get((cls, e.code), 'other:%s:%s' % (cls, e.code))
+        kind = {('VerifTypedError', 2001): 'typed_2001', ('VerifTypedErrorNull', 2001): 'typed_2001_null', ('VerifBase', 777): 'base_777', ('VerifSrvError', -32001): 'typed_m32001', ('VerifBase', -32050): 'base_m32050', ('ServerError', -32000): 'server_32000'}.get((cls, e.code), 'other:%s:%s' % (cls, e.code))
         verb = {'typed_2001': e.message == 'typed' and e.data == TYPED_DATA, 'typed_2001_null': e.message == '' and e.data is None,
                 'base_777': e.message == 'unreg' and e.data is pjrpc.common.UNSET,
+                'typed_m32001': e.message == 'typedsrv' and e.data == TYPED_DATA, 'base_m32050': e.message == 'unregsrv' and e.data is pjrpc.common.UNSET,
                 'server_32000': isinstance(e.message, str)}.get(kind, False)
         ev.append({'ev': 'Raise', 'err': kind, 'verbatim': bool(verb)})
     except BaseException as e:  # noqa
